@@ -16,7 +16,9 @@ package mqttproxy
 import (
 	"encoding/json"
 	"net"
+	"runtime"
 	"sort"
+	"strings"
 	"strconv"
 	"sync"
 	"sync/atomic"
@@ -70,23 +72,23 @@ func (r *c17mRun) connect(cid int) (int, string) {
 	cp.ClientIdentifier = c17mCid(cid)
 	cp.CleanSession = false // persistent sessions: no delete event on teardown, C17 stays independent of C16
 	if err := cp.Write(sock); err != nil {
-		sock.Close()
+		c17mKill(sock)
 		return -1, "write"
 	}
 	sock.SetReadDeadline(time.Now().Add(3 * time.Second))
 	p, err := packets.ReadPacket(sock)
 	sock.SetReadDeadline(time.Time{})
 	if err != nil {
-		sock.Close()
+		c17mKill(sock)
 		return -1, "read"
 	}
 	ca, ok := p.(*packets.ConnackPacket)
 	if !ok {
-		sock.Close()
+		c17mKill(sock)
 		return -1, "not-connack"
 	}
 	if ca.ReturnCode != packets.Accepted {
-		sock.Close()
+		c17mKill(sock)
 		return int(ca.ReturnCode), ""
 	}
 	// round trip: the connection's read loop is running
@@ -96,7 +98,7 @@ func (r *c17mRun) connect(cid int) (int, string) {
 	_, err = packets.ReadPacket(sock)
 	sock.SetReadDeadline(time.Time{})
 	if err != nil {
-		sock.Close()
+		c17mKill(sock)
 		return int(ca.ReturnCode), "ping"
 	}
 	r.mu.Lock()
@@ -105,20 +107,55 @@ func (r *c17mRun) connect(cid int) (int, string) {
 	return int(ca.ReturnCode), ""
 }
 
-// endSock makes the broker notice the end of one connection and waits for its teardown.
-func c17mEndSock(sock net.Conn) string {
+// c17mKill closes a client socket with a TCP reset (no TIME_WAIT socket is left behind;
+// a run makes hundreds of thousands of connections).
+func c17mKill(sock net.Conn) {
 	if tc, ok := sock.(*net.TCPConn); ok {
-		tc.CloseWrite()
+		tc.SetLinger(0)
 	}
-	buf := make([]byte, 64)
-	sock.SetReadDeadline(time.Now().Add(3 * time.Second))
+	sock.Close()
+}
+
+// c17mHandlers counts the goroutines running Broker.handleConn.
+func c17mHandlers() int {
+	buf := make([]byte, 1<<16)
 	for {
-		if _, err := sock.Read(buf); err != nil {
-			sock.Close()
-			if ne, ok := err.(net.Error); ok && ne.Timeout() {
-				return "teardown-timeout"
-			}
+		n := runtime.Stack(buf, true)
+		if n < len(buf) {
+			buf = buf[:n]
+			break
+		}
+		buf = make([]byte, 2*len(buf))
+	}
+	return strings.Count(string(buf), "\ngithub.com/megaease/easegress/pkg/object/mqttproxy.(*Broker).handleConn(")
+}
+
+func (r *c17mRun) liveCount() int {
+	r.mu.Lock()
+	defer r.mu.Unlock()
+	n := 0
+	for _, s := range r.live {
+		n += len(s)
+	}
+	return n
+}
+
+// endSock resets one connection (already taken out of r.live) and waits until the broker has
+// torn it down: its handleConn goroutine, which runs readLoop's deferred cleanup, is gone.
+func (r *c17mRun) endSock(sock net.Conn) string {
+	c17mKill(sock)
+	deadline := time.Now().Add(3 * time.Second)
+	for i := 0; ; i++ {
+		if c17mHandlers() <= r.liveCount() {
 			return ""
+		}
+		if time.Now().After(deadline) {
+			return "teardown-timeout"
+		}
+		if i < 50 {
+			time.Sleep(50 * time.Microsecond)
+		} else {
+			time.Sleep(time.Millisecond)
 		}
 	}
 }
@@ -190,7 +227,7 @@ func c17mExec(raw json.RawMessage) interface{} {
 			}
 			r.mu.Unlock()
 			for _, s := range old {
-				sn.Err += c17mEndSock(s)
+				sn.Err += r.endSock(s)
 			}
 		case "drop":
 			r.mu.Lock()
@@ -201,7 +238,7 @@ func c17mExec(raw json.RawMessage) interface{} {
 				sn.Skipped = true
 			}
 			for _, s := range socks {
-				sn.Err += c17mEndSock(s)
+				sn.Err += r.endSock(s)
 			}
 		case "burst":
 			var wg sync.WaitGroup
@@ -234,17 +271,20 @@ func c17mExec(raw json.RawMessage) interface{} {
 				b.Lock()
 				cur := b.clients[c17mCid(cid)]
 				b.Unlock()
-				keep := []net.Conn{}
+				keep, end := []net.Conn{}, []net.Conn{}
 				for _, s := range socks {
 					if cur != nil && cur.conn.RemoteAddr().String() == s.LocalAddr().String() {
 						keep = append(keep, s)
 					} else {
-						sn.Err += c17mEndSock(s)
+						end = append(end, s)
 					}
 				}
 				r.mu.Lock()
 				r.live[cid] = keep
 				r.mu.Unlock()
+				for _, s := range end {
+					sn.Err += r.endSock(s)
+				}
 			}
 		default:
 			sn.Skipped = true
@@ -258,7 +298,7 @@ func c17mExec(raw json.RawMessage) interface{} {
 	r.mu.Lock()
 	for _, socks := range r.live {
 		for _, s := range socks {
-			s.Close()
+			c17mKill(s)
 		}
 	}
 	r.mu.Unlock()
